@@ -25,6 +25,7 @@ type Env struct {
 	bound  map[string]bool
 	specDepth int
 	qbind  []string // SMT binder declarations of the enclosing quantifiers
+	tpFrame *Frame  // frame whose type parameters are in scope (spec bodies expanded inside generic code)
 }
 
 func (cx *Ctx) typesPkg(path string) *types.Package {
@@ -108,6 +109,14 @@ func (e *Env) resolveType(s string) types.Type {
 				return types.NewPointer(t)
 			}
 		}
+		// generic named type written with type arguments, e.g. item[V]: every instance is identified with the generic type
+		if i := strings.Index(s, "["); i > 0 && strings.HasSuffix(s, "]") && !strings.ContainsAny(s[:i], "*( ") {
+			if t := e.resolveType(s[:i]); t != nil {
+				if n, ok := types.Unalias(t).(*types.Named); ok && n.TypeParams().Len() > 0 {
+					return n
+				}
+			}
+		}
 		if strings.HasPrefix(s, "[]") {
 			if t := e.resolveType(s[2:]); t != nil {
 				return types.NewSlice(t)
@@ -150,8 +159,27 @@ func (e *Env) specSort(s string) (string, types.Type) {
 	case "Str":
 		return "Str", types.Typ[types.String]
 	}
+	if s == "_" {
+		return "_", nil
+	}
 	t := e.resolveType(s)
 	if t == nil {
+		// a type parameter of the function under contract (generic code is verified once, opaque V)
+		tf := e.fr
+		if tf == nil {
+			tf = e.tpFrame
+		}
+		for fr := tf; fr != nil; fr = fr.parent {
+			tps := fr.fn.TypeParams()
+			for i := 0; tps != nil && i < tps.Len(); i++ {
+				if tps.At(i).Obj().Name() == s {
+					return "Int", tps.At(i)
+				}
+			}
+		}
+		if len(s) == 1 && s[0] >= 'A' && s[0] <= 'Z' {
+			return "Int", nil
+		}
 		e.fail("unknown type %q", s)
 	}
 	return e.u.enc.sortOf(t), t
@@ -173,6 +201,12 @@ func (e *Env) lookupIdent(name string) (Val, bool) {
 	}
 	if e.fr != nil {
 		if v, ok := e.fr.lookupLocal(name, e.header); ok {
+			if e.fr.lastLookupAddr {
+				// the variable lives in memory (address-taken or named result with defers): read its current value
+				if pt, ok := v.Ty.Underlying().(*types.Pointer); ok {
+					return e.u.load(e.cur, v, pt.Elem()), true
+				}
+			}
 			return v, true
 		}
 	}
@@ -210,6 +244,7 @@ func (e *Env) constVal(c *types.Const) Val {
 
 // lookupLocal finds a local variable by source name: prefers the loop-header phi.
 func (fr *Frame) lookupLocal(name string, header *ssa.BasicBlock) (Val, bool) {
+	fr.lastLookupAddr = false
 	// phi comment (rangeindex) or named phi in header
 	if header != nil {
 		for _, in := range header.Instrs {
@@ -239,9 +274,24 @@ func (fr *Frame) lookupLocal(name string, header *ssa.BasicBlock) (Val, bool) {
 			return v, ok
 		}
 	}
+	// variables that live in memory (address-taken locals, named results of functions with defers): the Alloc carries the name
+	for _, b := range fr.fn.Blocks {
+		for _, in := range b.Instrs {
+			if al, ok := in.(*ssa.Alloc); ok && al.Comment == name {
+				if v, have := fr.vals[al]; have {
+					fr.lastLookupAddr = true
+					if v.Ty == nil {
+						v.Ty = al.Type()
+					}
+					return v, true
+				}
+			}
+		}
+	}
 	// search DebugRefs: value bound to a variable of this name. Prefer a phi of the loop header, else the
 	// latest definition that dominates the header, else a constant initialiser.
 	var best ssa.Value
+	bestAddr := false
 	var constBest ssa.Value
 	for _, b := range fr.fn.Blocks {
 		for _, in := range b.Instrs {
@@ -275,10 +325,16 @@ func (fr *Frame) lookupLocal(name string, header *ssa.BasicBlock) (Val, bool) {
 				}
 			}
 			best = x
+			bestAddr = d.IsAddr
 		}
 	}
 	if best != nil {
-		return fr.get(best), true
+		fr.lastLookupAddr = bestAddr
+		v := fr.get(best)
+		if v.Ty == nil {
+			v.Ty = best.Type()
+		}
+		return v, true
 	}
 	if constBest != nil {
 		return fr.get(constBest), true
@@ -442,6 +498,7 @@ func findField(t types.Type, name string, depth int) ([]int, bool) {
 	if p, ok := t.Underlying().(*types.Pointer); ok {
 		t = p.Elem()
 	}
+	t = canon(t)
 	s, ok := t.Underlying().(*types.Struct)
 	if !ok || depth > 4 || isTime(t) || opaqueStruct(t) {
 		return nil, false
@@ -477,13 +534,14 @@ func (e *Env) field(v Val, name string) Val {
 		if p, ok := t.Underlying().(*types.Pointer); ok {
 			stT := p.Elem()
 			loc := u.fieldLoc(cur, stT, i)
-			ft := stT.Underlying().(*types.Struct).Field(i).Type()
+			ft := loc.Ty
 			prev := cur
 			cur = Val{T: u.readLoc(e.cur, loc), S: u.enc.sortOf(ft), Ty: ft}
 			if prev.Loc == nil && prev.T != "" {
 				e.closureFact(cur, app("<=", prev.T, u.heapCur(e.cur, "$alloc")))
 			}
 		} else {
+			t = canon(t)
 			s := t.Underlying().(*types.Struct)
 			u.enc.sortOf(t)
 			ft := s.Field(i).Type()
@@ -540,7 +598,7 @@ func (e *Env) trIndex(n *EIndex) Val {
 	switch t := x.Ty.Underlying().(type) {
 	case *types.Slice:
 		h := u.arrHeap(t.Elem())
-		r := Val{T: sel(sel(u.heapCur(e.cur, h), app("sl_base", x.T)), app("+", app("sl_off", x.T), i.T)), S: u.enc.sortOf(t.Elem()), Ty: t.Elem()}
+		r := Val{T: sel(sel(u.heapCur(e.cur, h), app("sl_base", x.T)), app("ix", app("sl_off", x.T), i.T)), S: u.enc.sortOf(t.Elem()), Ty: t.Elem()}
 		e.closureFact(r, and(app("<=", app("sl_base", x.T), u.heapCur(e.cur, "$alloc")), app("<=", "0", i.T), app("<", i.T, app("sl_len", x.T))))
 		return r
 	case *types.Map:
@@ -756,6 +814,9 @@ func (e *Env) trCall(n *ECall) Val {
 	case "cap":
 		a := e.tr(n.Args[0])
 		return Val{T: app("sl_cap", a.T), S: "Int", Ty: intT}
+	case "base": // backing array identity of a slice
+		a := e.tr(n.Args[0])
+		return Val{T: app("sl_base", a.T), S: "Int", Ty: intT}
 	case "dom":
 		a := e.tr(n.Args[0])
 		mt, ok := a.Ty.Underlying().(*types.Map)
@@ -900,11 +961,15 @@ func (e *Env) trCall(n *ECall) Val {
 		if e.specDepth > 12 {
 			e.fail("spec expansion too deep at %s (recursive spec functions must be declared with uf + axiom)", n.Fn)
 		}
-		sub := &Env{u: u, vars: map[string]Val{}, cur: e.cur, old: e.old, pkg: u.cx.typesPkg(sf.PkgPath), specDepth: e.specDepth + 1, qbind: e.qbind}
+		sub := &Env{u: u, vars: map[string]Val{}, cur: e.cur, old: e.old, pkg: u.cx.typesPkg(sf.PkgPath), specDepth: e.specDepth + 1, qbind: e.qbind, fr: nil}
+		sub.tpFrame = e.fr
+		if e.tpFrame != nil {
+			sub.tpFrame = e.tpFrame
+		}
 		for i, p := range sf.Params {
 			a := e.tr(n.Args[i])
 			srt, ty := sub.specSort(p.Type)
-			if a.S != srt {
+			if srt != "_" && a.S != srt {
 				e.fail("spec %s: argument %d has sort %s, want %s", n.Fn, i, a.S, srt)
 			}
 			if ty != nil {
